@@ -11,9 +11,9 @@ import (
 
 func init() {
 	register(&PropSpec{
-		ID: "C15",
+		ID:          "C15",
 		Explanation: "Structural necessary conditions for the keepalive. K1: in the keepalive loop every path from a failed ping to a return passes ClientConn.Close(), except the branch on which the connection's own context is already done. K2: the ping is a request (sendRequest) bounded by a context derived from the connection context with the configured ping timeout (not the interval), and the ticker period is the configured interval. K3: the pong written for a broker ping carries the ping's own request id. K4: the interval and timeout announced in the connect request derive from the configured interval and timeout respectively (never swapped), and the client-side fields are set from the same configuration. K5: the iscp connection's run group has a member that selects on the wire connection's Closed() channel and returns an error, which starts recovery.",
-		NotDecided: []string{"every timing clause (detection bound, no spurious disconnect under load)"},
+		NotDecided:  []string{"every timing clause (detection bound, no spurious disconnect under load)"},
 		Rules: func(r *Run) {
 			ruleC15K1(r)
 			ruleC15K2(r)
@@ -21,6 +21,8 @@ func init() {
 			ruleC15K4(r)
 			ruleC15K5(r)
 			ruleAlwaysCancels(r, "K7")
+			ruleC15K9(r)
+			ruleLoopDrivers(r, "K8", "the keep-alive stays periodic: in package wire every receive inside a loop from a time source is a Ticker, a time.After, or a Timer that is re-armed inside the loop when its branch continues the loop", func(fn *ssa.Function) bool { return fnPkgPath(fn) == modPath+"/wire" }, 1)
 			r.Begin("K6", "pongs are routed without blocking: the reply table the pong is delivered through holds only channels of capacity >= 1 (a reply abandoned by its caller must not stall the router, or live pongs pile up and a live broker is dropped)", 1)
 			chanCapRule(r, "/wire.ClientConn.replyCh", 1)
 		},
@@ -329,4 +331,89 @@ func ruleC15K5(r *Run) {
 		})
 	}
 	r.Check(fnName(run)+" observes the wire connection", ok, p.pos(run.Pos()), fnName(run), "observer: "+where)
+}
+
+// ruleC15K9: the wire connection's Closed() channel is what iscp.Conn watches to start recovery. Close must fire it
+// before it starts tearing the transport down: a transport whose Close blocks on a dead peer (closing handshake)
+// would otherwise delay detection by its own timeout.
+func ruleC15K9(r *Run) {
+	r.Begin("K9", "Close announces before it tears down: in wire.ClientConn.Close the connection's cancel function is called directly (not deferred) and that call dominates the call that closes the transport", 1)
+	p := r.P
+	fn := r.method("/wire", "ClientConn", "Close")
+	if fn == nil {
+		return
+	}
+	name := fnName(fn)
+	var cancelCall, deferred, tclose ssa.Instruction
+	allInstrs(fn, func(ins ssa.Instruction) {
+		var cc *ssa.CallCommon
+		switch x := ins.(type) {
+		case *ssa.Call:
+			cc = &x.Call
+		case *ssa.Defer:
+			cc = &x.Call
+		default:
+			return
+		}
+		if cc.IsInvoke() || cc.StaticCallee() != nil {
+			l := []string{}
+			if cc.IsInvoke() {
+				l = p.Leaves(cc.Value, provOpts{})
+			} else if len(cc.Args) > 0 {
+				l = p.Leaves(cc.Args[0], provOpts{})
+			}
+			if hasLeaf(l, "field:/wire.ClientConn.transport") && (callNameCommon(cc) == "Close" || callNameCommon(cc) == ".Close") {
+				if _, isDefer := ins.(*ssa.Defer); !isDefer {
+					tclose = ins
+				}
+				return
+			}
+			// a helper of the same type that calls the cancel function on all its paths counts as the cancel call
+			if cf := cc.StaticCallee(); cf != nil && p.Analysed(cf) && cf.Blocks != nil {
+				helper := false
+				allInstrs(cf, func(x ssa.Instruction) {
+					if c2, ok := x.(*ssa.Call); ok && !c2.Call.IsInvoke() && c2.Call.StaticCallee() == nil && c2.Block() == cf.Blocks[0] &&
+						hasLeaf(p.Leaves(c2.Call.Value, provOpts{}), "field:/wire.ClientConn.cancel") {
+						helper = true
+					}
+				})
+				if helper {
+					if _, isDefer := ins.(*ssa.Defer); isDefer {
+						deferred = ins
+					} else {
+						cancelCall = ins
+					}
+				}
+			}
+			return
+		}
+		// dynamic call of a func value: the cancel field
+		if hasLeaf(p.Leaves(cc.Value, provOpts{}), "field:/wire.ClientConn.cancel") {
+			if _, isDefer := ins.(*ssa.Defer); isDefer {
+				deferred = ins
+			} else {
+				cancelCall = ins
+			}
+		}
+	})
+	switch {
+	case tclose == nil:
+		r.Undecided(name+" transport close", "no direct call closing ClientConn.transport found in Close")
+	case cancelCall == nil && deferred != nil:
+		r.Check(name+" cancels first", false, posOf(p, deferred), name, "the cancel function is deferred: Closed() fires only after transport.Close() has returned, so a slow teardown delays dead-peer recovery")
+	case cancelCall == nil:
+		r.Check(name+" cancels first", false, p.pos(fn.Pos()), name, "Close never calls the connection's cancel function")
+	default:
+		r.Check(name+" cancels first", dominatesInstr(cancelCall, tclose), posOf(p, cancelCall), name, "the cancel call must dominate the transport's Close")
+	}
+}
+
+func callNameCommon(cc *ssa.CallCommon) string {
+	if cc.IsInvoke() {
+		return cc.Method.Name()
+	}
+	if f := cc.StaticCallee(); f != nil {
+		return "." + f.Name()
+	}
+	return ""
 }
